@@ -52,7 +52,9 @@ def summary():
         ax = sorted({a2.split(".")[-1] for a2 in raw if not a2.startswith(PRIM)})
         if any(a2.startswith(PRIM) for a2 in raw):
             ax.append("+ machine-integer/float primitives of coq-interval (refutation witness only)")
-        print(f"| {pid} | {c['level_claimed']['text'][:60].split('.')[0]}… | {nth} | {', '.join(ax) or 'none'} | "
+        txt = c['level_claimed']['text'].lower()
+        lvl = "partial" if txt.startswith("partial") else "full (up to the stated trusted base)"
+        print(f"| {pid} | {lvl} | {nth} | {', '.join(ax) or 'none'} | "
               f"{cov.get('discharged')}/{cov.get('obligations')} | {cov.get('evaluations')} | {e['wall_s']} |")
 
 
